@@ -12,7 +12,11 @@ Inductive case :=
       (obs_msgs : list bytes) (obs_fin : Z)
       (* tparse: trailer byte strings found by the harness's own frame walk, with the code the
          real protobuf codec decodes from them (-1: does not unmarshal) *)
-| Srv (single : bool) (bs : bytes) (abrupt : bool) (obs_msgs : list bytes) (obs_fin : Z).
+| Srv (single : bool) (bs : bytes) (abrupt : bool) (obs_msgs : list bytes) (obs_fin : Z)
+      (* the client of a single-response method: one RecvMsg; success with the message, or failure *)
+| CliSingle (bs : bytes) (abrupt : bool) (cut : bool) (tparse : list (bytes * Z)) (obs_ok : bool) (obs_msg : bytes)
+      (* a comparison made on the Go side (bodies too large to be written out as terms) *)
+| GoSide (kind : string) (id : Z) (ok : bool).
 
 Definition ending_of (abrupt : bool) := if abrupt then Abrupt else Clean.
 
@@ -51,6 +55,19 @@ Definition check_case (k : case) : bool :=
       | STooMany => ofin =? 103
       | SFuel => false
       end
+  | CliSingle bs abrupt _ tp ok om =>
+      (* success exactly when the reply holds one message followed by a complete trailer that says OK *)
+      let r := client_decode size_rejected client_size_rejected bs (ending_of abrupt) in
+      match c_msgs r, c_fin r with
+      | [m], CTrailer t =>
+          match lookup_trailer t tp with
+          | Some c => if c =? 0 then ok && bytes_eqb om m else negb ok
+          | None => false
+          end
+      | _, CFuel => false
+      | _, _ => negb ok
+      end
+  | GoSide _ _ ok => ok
   end.
 
 Fixpoint drop_prefix (a b : bytes) : option bytes :=
@@ -86,4 +103,9 @@ Definition oracle_case (k : case) : bool :=
   | Srv _ bs _ om _ =>
       match drop_prefix (enc_msgs om) bs with None => false | Some _ => true end &&
       forallb (fun m => blen m <=? max_size) om
+  | CliSingle bs _ cut _ ok om =>
+      (* a cut reply is never a success; a success delivers the message that opens the reply, followed by a trailer *)
+      if ok then negb cut && match drop_prefix (enc_msgs [om]) bs with Some rest => has_trailer_frame rest | None => false end
+      else true
+  | GoSide _ _ ok => ok
   end.
